@@ -48,18 +48,38 @@ theorem lookup_perm {α β : Type} [DecidableEq α] (k : α) {l₁ l₂ : List (
 
 /-! ### chains around a sentinel -/
 
+/-- `errors.New(msg)` is plain -/
+theorem plain_other (m : String) : Plain (.other m) :=
+  ⟨fun _ => rfl, rfl, by simp [text, markers]⟩
+
+/-- two `%w` verbs / `errors.Join` with `errors.New(m)` as the right child -/
+theorem Around.wrap2l_other {c : Cls} {pre mid post : String} {e : Err} {m : String}
+    (h : Around c e) : Around c (.wrap2 pre mid post e (.other m)) :=
+  .wrap2l h (plain_other m)
+
+/-- two `%w` verbs / `errors.Join` with `errors.New(m)` as the left child -/
+theorem Around.wrap2r_other {c : Cls} {pre mid post : String} {e : Err} {m : String}
+    (h : Around c e) : Around c (.wrap2 pre mid post (.other m) e) :=
+  .wrap2r h (plain_other m)
+
 theorem errorsIs_of_around {c : Cls} {e : Err} (h : Around c e) (t : Cls) :
     errorsIs e t = (c == t) := by
   induction h with
   | base => rfl
   | wrap _ ih => simpa [errorsIs] using ih
   | embed _ ih => simpa [errorsIs] using ih
+  | os => rfl
+  | wrap2l _ hx ih => simp [errorsIs, ih, hx.noClass]
+  | wrap2r _ hx ih => simp [errorsIs, ih, hx.noClass]
 
 theorem findStatus_of_around {c : Cls} {e : Err} (h : Around c e) : findStatus e = none := by
   induction h with
   | base => rfl
   | wrap _ ih => simpa [findStatus] using ih
   | embed _ ih => simpa [findStatus] using ih
+  | os => rfl
+  | wrap2l _ hx ih => simp [findStatus, ih, hx.noStatus]
+  | wrap2r _ hx ih => simp [findStatus, ih, hx.noStatus]
 
 theorem statusCode_of_around {c : Cls} {e : Err} (h : Around c e) : statusCode e = .cUnknown := by
   simp [statusCode, findStatus_of_around h]
@@ -101,6 +121,9 @@ theorem grpcStatusCodeOrd_of_around
   | base => cases hl' : lookup c errorsToCode <;> simp [hl']
   | wrap _ => rfl
   | embed _ => rfl
+  | os => rfl
+  | wrap2l _ _ => rfl
+  | wrap2r _ _ => rfl
 
 theorem grpcStatusCodeOrd_of_around_mem
     (hnd : (errorsToCode.map (·.1)).Nodup)
